@@ -359,6 +359,67 @@ def finalize_shape(inner: int, n: int, a: int, b: str, t2l: bool, s2l: bool, via
     return H.done(census_ok(res, t2l, s2l) and match(res, expected(spec), t2l, s2l))
 
 
+TRI = [(None,), (True,), (False,)]      # an option absent / on / off at one level
+LEVEL_VALUES = [('tuple', 'frozenset'), ('generator', 'tuple'), ('list', 'tuple'), ('frozendict', 'frozenset')]   # no collections in hashed positions (listed findings)
+
+
+def level_opts(t, s):
+    o = {}
+    if t is not None:
+        o['yaql.convertTuplesToLists'] = t
+    if s is not None:
+        o['yaql.convertSetsToLists'] = s
+    return o
+
+
+def effective(stmt_level, engine_level, default):
+    return stmt_level if stmt_level is not None else (engine_level if engine_level is not None else default)
+
+
+_LEVEL_ENGINES = {}
+
+
+def level_engine(et, es):
+    """engine created by the real factory with the given creation-time options (built once per combination, outside
+    the symbolic run: building a parser is not the subject)"""
+    with H.NoTracing():
+        key = (et, es)
+        if key not in _LEVEL_ENGINES:
+            _LEVEL_ENGINES[key] = yq.FACTORY.create(options=level_opts(et, es))
+        return _LEVEL_ENGINES[key]
+
+
+def run_levels(et, es, st_, ss, how, value):
+    """the conversion options given at engine creation and again per statement; the later level wins"""
+    eng = level_engine(et, es)
+    c = ROOT.create_child_context()
+    c['v'] = value
+    so = level_opts(st_, ss)
+    if how == 0:
+        return eng('$v', options=so).evaluate(context=c)
+    if how == 1:
+        return eng.copy(so)('$v').evaluate(context=c)
+    return eng.copy(level_opts(st_, None)).copy(level_opts(None, ss))('$v').evaluate(context=c)
+
+
+def option_levels(et: int, es: int, st_: int, ss: int, shape: int) -> bool:
+    """
+    pre: 0 <= et < 3 and 0 <= es < 3 and 0 <= st_ < 3 and 0 <= ss < 3 and 0 <= shape < H.P('nshapes', 2)
+    pre: H.fresh(et, es, st_, ss, shape)
+    post: _
+    """
+    how, a = H.P('how', 0), 10
+    et, es, st_, ss = TRI[et][0], TRI[es][0], TRI[st_][0], TRI[ss][0]
+    outer, inner = pick(LEVEL_VALUES, shape)
+    spec = shape_spec(outer, inner, 1, a, 'v')
+    t2l, s2l = effective(st_, et, True), effective(ss, es, False)
+    try:
+        res = run_levels(et, es, st_, ss, how, build(spec))
+    except Exception:
+        return H.done(False)
+    return H.done(census_ok(res, t2l, s2l) and match(res, expected(spec), t2l, s2l))
+
+
 OUTERS = [k for k in OUTER_KINDS if k != 'range']
 
 
@@ -639,6 +700,10 @@ def conditions(tier, seed):
                         600, outer=outer, via=via, mids=[mi], inners=every, slen=slen)
     add('roundtrip_history', 'roundtrip_history', 'one parsed statement (and yaql.eval) evaluated before and after the host mutates '
         'its document in place: %s; symbolic int leaves; t2l, s2l symbolic' % ', '.join(MUTATIONS), 300 if q else 600)
+    for how, what in enumerate(('engine(expr, options=...)', 'engine.copy(options)', 'two chained engine.copy')):
+        add('option_levels[%s]' % what, 'option_levels', 'conversion options absent/on/off (symbolic) at engine creation '
+            'and again per statement through %s: the later level wins, defaults tuples->lists on, sets->lists off; '
+            '%d value shapes' % (what, 2 if q else 4), 300 if q else 600, how=how, nshapes=2 if q else 4)
     add('roundtrip_json', 'roundtrip_json', 'six JSON document skeletons with symbolic int/str(len<=3)/float/bool leaves, '
         'library-default engine, both entry points', 120 if q else 400)
     for key in sorted(PROBE_SHAPES):
@@ -734,6 +799,21 @@ def replay(cond, args):
         outer, ik = PROBE_SHAPES[p['probe_key']][vals['i']]
         spec = shape_spec(outer, ik, 1, 0, '')
         node = expected(spec)
+    elif f == 'option_levels':
+        et, es, st_, ss = [TRI[vals[k]][0] for k in ('et', 'es', 'st_', 'ss')]
+        outer, inner = LEVEL_VALUES[vals['shape']]
+        spec = shape_spec(outer, inner, 1, 10, 'v')
+        t2l, s2l = effective(st_, et, True), effective(ss, es, False)
+        try:
+            got = repr(run_levels(et, es, st_, ss, p.get('how', 0), build(spec)))
+        except Exception as e:
+            got = 'raises %r' % e
+        return {'reproduced': True, 'key': 'C10/option_levels',
+                'what': 'engine created with %r, statement options %r (%s), value %s: result %s; effective options are '
+                        'convertTuplesToLists=%s convertSetsToLists=%s, expected %r'
+                        % (level_opts(et, es), level_opts(st_, ss),
+                           ['engine(expr, options=)', 'engine.copy(options)', 'two chained copies'][p.get('how', 0)],
+                           spec_text(spec), got, t2l, s2l, expected(spec))}
     elif f == 'roundtrip_history':
         doc = {'servers': [1, 2]}
         st = engine_with(t2l, s2l)('$')
